@@ -23,111 +23,12 @@ from dpvc.ctx import SRC
 
 P = "ultrametricity_precision"
 ALIASES = {"pybus_harvey_gamma": "prec"}
-SKIP_DIRS = ("legacy", "test", "vendor")
-
-
-def _modules():
-    out = []
-    root = os.path.join(SRC, "dendropy")
-    for d, dirs, files in os.walk(root):
-        dirs[:] = sorted(x for x in dirs if x not in SKIP_DIRS and not x.startswith("__"))
-        for f in sorted(files):
-            if f.endswith(".py"):
-                rel = os.path.relpath(os.path.join(d, f), SRC)[:-3].replace(os.sep, ".")
-                if rel.endswith(".__init__"):
-                    rel = rel[:-9]
-                out.append(rel)
-    return out
-
-
-def _params(fn):
-    return [a.arg for a in fn.args.posonlyargs + fn.args.args] + [a.arg for a in fn.args.kwonlyargs]
-
-
-def _mentions(e, cls_has):
-    """does expression e mention the caller-given precision?"""
-    for n in ast.walk(e):
-        if isinstance(n, ast.Name) and n.id in (P, "prec"):
-            return True
-        if isinstance(n, ast.Attribute) and n.attr == P:
-            return True
-        if isinstance(n, ast.Constant) and n.value == P:
-            return True
-    return False
 
 
 def scan():
-    """-> (sinks, records); a record = (module, qualified function, callee name, line, ok, why)"""
-    mods = []
-    for mn in _modules():
-        try:
-            mods.append(frontend.module(mn))
-        except SyntaxError:
-            continue
-    sinks = {}  # callee name -> (precision parameter name, position among non-self parameters)
-    kept = {}   # (module, class) -> bool : __init__ stores the parameter on self
-    for m in mods:
-        for fname, fn in m.functions.items():
-            ps = _params(fn)
-            pn = P if P in ps else (ALIASES.get(fname) if ALIASES.get(fname) in ps else None)
-            if pn:
-                sinks.setdefault(fname, (pn, ps.index(pn)))
-        for cname, ci in m.classes.items():
-            for mname, fn in ci.methods.items():
-                ps = [p for p in _params(fn) if p not in ("self", "cls")]
-                pn = P if P in ps else (ALIASES.get(mname) if ALIASES.get(mname) in ps else None)
-                if not pn:
-                    continue
-                if mname == "__init__":
-                    sinks.setdefault(cname, (pn, ps.index(pn)))
-                    stored = any(isinstance(s, ast.Assign) and any(isinstance(t, ast.Attribute) and t.attr == P and isinstance(t.value, ast.Name) and t.value.id == "self"
-                                                                     for t in s.targets) and _mentions(s.value, False) for s in ast.walk(fn))
-                    kept[(m.modname, cname)] = stored or "handed-on"
-                else:
-                    sinks.setdefault(mname, (pn, ps.index(pn)))
-    for m in mods:  # functions that take the precision through **kwargs
-        for fname, fn in m.functions.items():
-            if fname not in sinks and fn.args.kwarg is not None and any(isinstance(n, ast.Constant) and n.value == P for n in ast.walk(fn)
-                                                                       if not (isinstance(n, ast.Constant) and n is getattr(fn.body[0], "value", None))):
-                sinks[fname] = (P, 10 ** 6)
-    recs = []
-
-    def visit(m, qual, fn, in_scope):
-        ps = _params(fn)
-        reads_kwargs = any(isinstance(n, ast.Constant) and n.value == P for n in ast.walk(fn))
-        scope = in_scope or P in ps or reads_kwargs or (fn.name in ALIASES and ALIASES[fn.name] in ps)
-        if not scope:
-            return
-        for call in [n for n in ast.walk(fn) if isinstance(n, ast.Call)]:
-            cn = call.func.attr if isinstance(call.func, ast.Attribute) else (call.func.id if isinstance(call.func, ast.Name) else None)
-            if cn not in sinks:
-                continue
-            pn, pos = sinks[cn]
-            passed = None
-            for k in call.keywords:
-                if k.arg == pn:
-                    passed = k.value
-            if passed is None and len(call.args) > pos and not any(isinstance(a, ast.Starred) for a in call.args):
-                passed = call.args[pos]
-            if passed is None:
-                for k in call.keywords:
-                    if k.arg is None:
-                        passed = k.value  # **kwargs carries whatever the caller gave
-                        if isinstance(passed, ast.Name):
-                            passed = ast.Constant(P)
-            ok = passed is not None and _mentions(passed, in_scope)
-            why = None if ok else ("%s is not given to %s (the default applies although the caller chose a precision)" % (pn, cn) if passed is None
-                                   else "%s gets %s=%s, which does not depend on the caller's precision" % (cn, pn, ast.unparse(passed)))
-            recs.append((m.modname, qual, cn, call.lineno, ok, why))
-
-    for m in mods:
-        for fname, fn in m.functions.items():
-            visit(m, fname, fn, False)
-        for cname, ci in m.classes.items():
-            has = (m.modname, cname) in kept
-            for mname, fn in ci.methods.items():
-                visit(m, "%s.%s" % (cname, mname), fn, has and mname != "__init__")
-    return sinks, kept, recs
+    """-> (sinks, kept, records); a record = (module, qualified function, callee name, line, ok, why) -- the generic scan of dpvc/forwarding.py"""
+    from dpvc import forwarding
+    return forwarding.scan(P, ALIASES, exact=False)
 
 
 def native_precision_ignored(modname, qual):
